@@ -26,6 +26,7 @@ class Ctx:
 
     def engine(self, auto=True, **kw):
         e = Engine(self.idx, enums=self.enums, src_root=self.src, **kw)
+        ALL_ENGINES.append((self, e))
         if auto:
             e.auto_inline = self.default_auto()
         return e
@@ -86,6 +87,32 @@ class Ctx:
         self.auto_decisions = ok
         return self._auto
 
+    def new_function_auto(self):
+        """inline EVERY crate function that did not exist when the obligations were written (not in the baseline list, not named by a
+        check), whatever module it lives in: for small units (listers, name builders) where a helper extracted by a refactoring
+        must not turn into an unknown predicate"""
+        import callgraph
+        cg = callgraph.CallGraph(self.idx)
+        cg.set_src(self.src)
+        known = known_names()
+        bf = os.path.join(os.path.dirname(os.path.abspath(__file__)), "baseline_fn_names.txt")
+        baseline = set(open(bf).read().split()) if os.path.exists(bf) else set()
+        default = self.default_auto()
+
+        def pick(engine, callee, caller):
+            p = default(engine, callee, caller)
+            if p is not None:
+                return p
+            seg = callgraph.last_seg(callee)
+            if seg in known or seg in baseline or re.search(r"(::clone$|::fmt$|::to_string$|::drop$|::default$|::eq$|::ne$|::from$|::into$)", callee):
+                return None
+            c = cg.resolve(callee, caller)
+            if len(c) != 1:
+                return None
+            p = next(iter(c))
+            return None if "{closure" in p.split("::")[-1] else p
+        return pick
+
     def one(self, suffix):
         c = self.idx.find(suffix)
         if len(c) != 1:
@@ -100,6 +127,27 @@ class Ctx:
 
 
 _KNOWN = None
+ALL_ENGINES = []          # (ctx, engine) of every engine a check created: for the audit of uninterpreted crate callees
+
+
+def audit_uninterpreted():
+    """crate functions (exactly one MIR body) that some exploration of this run left uninterpreted -> {name: body path}"""
+    import callgraph
+    out = {}
+    cgs = {}
+    for ctx, e in ALL_ENGINES:
+        cg = cgs.get(id(ctx))
+        if cg is None:
+            cg = cgs[id(ctx)] = callgraph.CallGraph(ctx.idx)
+            cg.set_src(ctx.src)
+        for c in sorted(e.uninterpreted):
+            try:
+                r = cg.resolve(c, None)
+            except Exception:
+                continue
+            if len(r) == 1:
+                out[c] = next(iter(r))
+    return out
 
 
 def known_names():
